@@ -368,8 +368,35 @@ def r05g(run):
     run.floor("R05g", "get_default call sites", total, 7)
 
 
+def r05h(run):
+    """inherited fields are merged so that the nearest declaration wins: bases are visited farthest-first and each one
+    overwrites the previous (dict.update), or nearest-first without overwriting"""
+    f = run.repo.func("utype.parser.cls", "ClassParser.generate_from_bases")
+    fa = analysis(f)
+    loops = [n for n in fa.cfg.nodes if n.kind == "iter" and ("__bases__" in unparse(n.ast) or "__mro__" in unparse(n.ast))]
+    run.floor("R05h", "loops over the base classes in generate_from_bases", len(loops), 1)
+    for lp in loops:
+        it = lp.ast
+        rev = isinstance(it, ast.Call) and call_attr(it) == "reversed"
+        merges = []
+        for x in walk_shallow(lp.stmt):
+            if isinstance(x, ast.Call) and call_attr(x) == "update" and x.args and unparse(x.args[0]).endswith(".fields"):
+                merges.append("update")
+            if isinstance(x, ast.Call) and call_attr(x) == "setdefault":
+                merges.append("setdefault")
+        overwriting = "update" in merges
+        ok = (rev and overwriting) or (not rev and merges and not overwriting)
+        run.check("R05h", f, "the nearest base's declaration of a field wins when fields are inherited", ok,
+                  construct="inherited fields merged in the wrong direction",
+                  message=f"generate_from_bases iterates `{unparse(it)}` and merges with {sorted(set(merges)) or 'nothing'}: "
+                          f"with overwriting merges the bases must be visited farthest-first (reversed)",
+                  necessity="a field re-declared by an intermediate base (other type or constraints) is replaced by the "
+                            "grand-parent's declaration: ArchivedRecord(code=12345) is accepted although `code` is "
+                            "declared str with max_length=4", node=it)
+
+
 def check(run):
-    run.rules_run += ["R05a", "R05b", "R05c", "R05d", "R05e", "R05f", "R05g", "R06f"]
+    run.rules_run += ["R05a", "R05b", "R05c", "R05d", "R05e", "R05f", "R05g", "R05h", "R06f"]
     run.explain("C05 (enforcement skeleton, not the contract itself): (R05a) get_default returns copy_value(default), "
                 "copy_value recurses into sequences and dicts; (R05b) every parse_value in the binding code is dominated "
                 "by is_no_input being false and a no-input field receives only its default; (R05c) AbsenceError exactly "
@@ -384,5 +411,6 @@ def check(run):
     r05e(run)
     r05f(run)
     r05g(run)
+    r05h(run)
     pd, A, B = c06.siblings(run)
     c06.r06f(run, A, B)
